@@ -405,6 +405,60 @@ def _typed_worker(part, chunk):
                            {"typed": kind, "prior": prior, "ops": [[level, s]], "signature": sig})
 
 
+# ---- phase 4: a table cell stored WITHOUT a text body ----------------------------------------------------------
+# a:tc/a:txBody is optional in the schema and some producers omit it for empty cells. Assigning text to such a cell
+# (cell.text and cell.text_frame.text) and reading it back, live and after save / re-open, is the cell level of the
+# statement on one more prior state. Small and self-contained: BODYLESS_STRINGS x 2 entry points.
+
+BODYLESS_STRINGS = ["x", "a\nb", "p\vq", " lead ", ""]
+
+
+def bodyless_case(entry, s):
+    """-> failure message or None. A fresh 2x2 table; the a:txBody of two cells is removed with lxml; then the public
+    API only."""
+    from pptx import Presentation
+    from pptx.util import Emu
+    prs = Presentation()
+    slide = prs.slides.add_slide(prs.slide_layouts[6])
+    gf = slide.shapes.add_table(2, 2, Emu(0), Emu(0), Emu(914400), Emu(914400))
+    for tc in list(gf.element.iter("{%s}tc" % A_NS))[:2]:
+        for body in tc.findall("{%s}txBody" % A_NS):
+            tc.remove(body)
+    buf = io.BytesIO()
+    prs.save(buf)
+    prs = Presentation(io.BytesIO(buf.getvalue()))     # the deck as another producer would have written it
+    cell = prs.slides[0].shapes[0].table.cell(0, 0)
+    exp = T.predict([{"items": [], "n_ppr": 0, "ppr": None}], "frame", s, 0) if False else None
+    try:
+        if entry == "cell.text":
+            cell.text = s
+        else:
+            cell.text_frame.text = s
+        got = cell.text
+    except Exception as e:  # noqa: BLE001
+        return "assigning %r through %s to a cell without a:txBody raised %r" % (s, entry, e)
+    if got != s:
+        return "%s = %r on a cell without a:txBody reads back %r" % (entry, s, got)
+    buf = io.BytesIO()
+    prs.save(buf)
+    got2 = Presentation(io.BytesIO(buf.getvalue())).slides[0].shapes[0].table.cell(0, 0).text
+    if got2 != s:
+        return "%s = %r on a cell without a:txBody reads %r after save and re-open" % (entry, s, got2)
+    return None
+
+
+def _bodyless_worker(part, chunk):
+    for entry, s in chunk:
+        msg = bodyless_case(entry, s)
+        part.count("evaluations")
+        part.count("bodyless_cases")
+        part.count("nontrivial_count")
+        part.outcome("cell-without-body", "ok" if msg is None else "fail")
+        if msg:
+            sig = "C04|getter|level=cell|prior=no-txBody|entry=%s" % entry
+            part.violation(sig, msg, {"bodyless": [entry, s], "signature": sig})
+
+
 # ---- batched save / re-open ------------------------------------------------------------------------------
 
 def batch_roundtrip(entries):
@@ -713,6 +767,13 @@ def run(ctx):
         raise HarnessError("typed cases %d != %d" % (ctx.counters.get("typed_cases", 0), exp3))
     ctx.extra["typed_cases"] = exp3
 
+    # phase 4: cells stored without a text body
+    bitems = [(e, st) for e in ("cell.text", "cell.text_frame.text") for st in BODYLESS_STRINGS]
+    fanout(ctx, _bodyless_worker, ctx.rotate(bitems), chunk_size=len(bitems), min_parallel=1)
+    exp4 = len(bitems)
+    if ctx.counters.get("bodyless_cases", 0) != exp4:
+        raise HarnessError("bodyless cases %d != %d" % (ctx.counters.get("bodyless_cases", 0), exp4))
+
     ctx.extra["strings_enumerated"] = len(exh)
     ctx.extra["strings_extra"] = len(EXTRA)
     ctx.extra["strings_lookalike_not_judged"] = len(LOOKALIKE)
@@ -721,8 +782,8 @@ def run(ctx):
     ctx.extra["pair_string_pairs"] = exp2 // (len(PRIORS) * 16)
     ctx.extra["levels"] = LEVELS
     ctx.extra["prior_states"] = PRIOR_NAMES
-    if ctx.counters["evaluations"] != exp1 + exp2 + exp3:
-        raise HarnessError("evaluations %d != %d" % (ctx.counters["evaluations"], exp1 + exp2 + exp3))
+    if ctx.counters["evaluations"] != exp1 + exp2 + exp3 + exp4:
+        raise HarnessError("evaluations %d != %d" % (ctx.counters["evaluations"], exp1 + exp2 + exp3 + exp4))
 
 
 # ---- replay ---------------------------------------------------------------------------------------------------------
@@ -731,6 +792,8 @@ def replay(data):
     """Rebuild the case from scratch in a fresh presentation: prior state, the assignment(s), all checks on
     the last assignment, then two real save / re-open cycles of that very presentation."""
     from pptx import Presentation
+    if data.get("bodyless"):
+        return bodyless_case(*data["bodyless"])
     H = Hosts()
     ops = data["ops"]
     prior = data["prior"]
